@@ -86,7 +86,7 @@ func (e treeEngine) Run(ctx *RunCtx) {
 	defer d.Teardown()
 	// C16 / C18: the settings that matter arrive through the second party (the
 	// client answers workspace/configuration) and change during the history
-	st := &treeSettings{maxResults: 200, fuzzy: true, undeclAcct: true}
+	st := &treeSettings{maxResults: 200, fuzzy: true, undeclAcct: true, undeclCom: true}
 	withSettings := e.prop == "c16" || e.prop == "c18"
 	var initOpts any
 	if withSettings {
